@@ -18,15 +18,17 @@ type Binding struct {
 	ptrParam bool // pointer parameter whose pointee is threaded
 	ptrLocal bool // local pointer to a fresh allocation (x := &T{...}): the only name of its pointee, threaded like a pointer parameter
 	madeAt   ast.Stmt
+	madeHere bool // a local map initialised by make(...) in its declaration: the only name of that map
 }
 
 // Val is the translation of a Go expression: a total, pure Gallina term.
 type Val struct {
-	term   string
-	typ    *T
-	cst    *big.Int // integer constant
-	poison string   // non-empty: the value must not be used (reason)
-	fresh  bool     // a pointer to a fresh allocation (&T{...}); term is the pointee
+	term     string
+	typ      *T
+	cst      *big.Int // integer constant
+	poison   string   // non-empty: the value must not be used (reason)
+	fresh    bool     // a pointer to a fresh allocation (&T{...}); term is the pointee
+	nilState int      // a pointer read out of a map: 1 = known nil, 2 = known non-nil (term is the pointee)
 }
 
 type loopCtx struct {
@@ -119,6 +121,7 @@ type FuncInfo struct {
 type Tr struct {
 	p         *Pkg
 	needDEval bool // a map[Variable]*Term was translated: dbindings / dlookup of Model/DEval.v
+	needGoMap bool // a map write or a set of strings was translated: Model/GoMap.v
 	infos     map[string]*FuncInfo
 	state     map[string]int // 1 = in progress, 2 = done
 	out       []string       // emitted items, in dependency order
@@ -220,6 +223,16 @@ func (tr *Tr) info(key string, at ast.Node) *FuncInfo {
 			fi.results = append(fi.results, tr.resolveType(f.Type))
 		}
 	}
+	for _, p := range fi.params {
+		if p.typ.K == KStrSet {
+			tr.fail(d, "parameter of type map[string]struct{} (a set of strings is represented only as a local made by make)")
+		}
+	}
+	for _, r := range fi.results {
+		if r.K == KStrSet {
+			tr.fail(d, "result of type map[string]struct{} (a set of strings is represented only as a local made by make)")
+		}
+	}
 	fi.mutates = tr.mutatesOf(key)
 	fi.usesRx = tr.usesRxOf(key)
 	fi.usesTstr = tr.usesTstrOf(key)
@@ -296,6 +309,44 @@ func (tr *Tr) paramNames(d *ast.FuncDecl) []string {
 		}
 	}
 	return names
+}
+
+// paramTypeExprs: the type expressions of the parameters, aligned with paramNames.
+func (tr *Tr) paramTypeExprs(d *ast.FuncDecl) []ast.Expr {
+	var out []ast.Expr
+	if d.Recv != nil {
+		f := d.Recv.List[0]
+		t, err := tr.p.resolveTypeErr(f.Type)
+		isStruct := err == nil && (t.K == KStruct || (t.K == KPtr && t.Elem.K == KStruct))
+		name := ""
+		if len(f.Names) == 1 {
+			name = f.Names[0].Name
+		}
+		if !isStruct || (name != "" && name != "_") {
+			out = append(out, f.Type)
+		}
+	}
+	for _, f := range d.Type.Params.List {
+		n := len(f.Names)
+		if n == 0 {
+			n = 1
+		}
+		for j := 0; j < n; j++ {
+			out = append(out, f.Type)
+		}
+	}
+	return out
+}
+
+// isMapParam: parameter idx is a map[Variable]*Term (a reference: a write m[k] = v in the
+// function is visible to the caller, so the new map is returned beside the result).
+func (tr *Tr) isMapParam(d *ast.FuncDecl, idx int) bool {
+	ts := tr.paramTypeExprs(d)
+	if idx >= len(ts) {
+		return false
+	}
+	t, err := tr.p.resolveTypeErr(ts[idx])
+	return err == nil && t.K == KMap
 }
 
 func (tr *Tr) isPtrParam(d *ast.FuncDecl, idx int) bool {
@@ -408,6 +459,16 @@ func (tr *Tr) mutatesOf(key string) []bool {
 				if x := written(l); x != nil {
 					if i := idxOf(x); i >= 0 {
 						res[i] = true
+					}
+				}
+				// m[k] = v on a map parameter
+				if ix, ok := unparen(l).(*ast.IndexExpr); ok {
+					if id, ok := unparen(ix.X).(*ast.Ident); ok {
+						for i, pn := range names {
+							if pn != "" && pn == id.Name && tr.isMapParam(d, i) {
+								res[i] = true
+							}
+						}
 					}
 				}
 			}
@@ -920,6 +981,11 @@ func (tr *Tr) assignStmt(s *ast.AssignStmt, env *Env, next ast.Stmt, rest cont) 
 	// (*p)[i] = v
 	if len(s.Lhs) == 1 && len(s.Rhs) == 1 && !define {
 		if ix, ok := unparen(s.Lhs[0]).(*ast.IndexExpr); ok {
+			if id, ok := unparen(ix.X).(*ast.Ident); ok {
+				if mb := env.scope[id.Name]; mb != nil && (mb.typ.K == KStrSet || mb.typ.K == KMap) {
+					return tr.mapStore(s, ix, mb, env, rest)
+				}
+			}
 			// Go: the index operand, then the right-hand side, then the store
 			iv := tr.storeIndex(s, ix, env)
 			return tr.expr(s.Rhs[0], env, func(e *Env, v Val) string {
@@ -973,6 +1039,9 @@ func (tr *Tr) assignStmt(s *ast.AssignStmt, env *Env, next ast.Stmt, rest cont) 
 							if lid, ok := s.Lhs[0].(*ast.Ident); ok {
 								if b := e2.scope[lid.Name]; b != nil {
 									b.madeAt = next
+									if b.typ.K == KStrSet {
+										b.madeHere = true
+									}
 								}
 							}
 						}
@@ -983,7 +1052,7 @@ func (tr *Tr) assignStmt(s *ast.AssignStmt, env *Env, next ast.Stmt, rest cont) 
 			return out
 		}
 		return tr.expr(s.Rhs[j], e, func(e2 *Env, v Val) string {
-			if v.typ.K == KBigInt || v.typ.K == KRegexp || v.typ.K == KPtr {
+			if v.typ.K == KBigInt || v.typ.K == KRegexp || v.typ.K == KPtr || v.typ.K == KStrSet {
 				if _, isId := unparen(s.Rhs[j]).(*ast.Ident); isId {
 					tr.fail(s.Rhs[j], "copy of a pointer (%v): aliasing is not represented", v.typ)
 				}
@@ -1312,6 +1381,15 @@ func (tr *Tr) commaOk(s *ast.AssignStmt, ta *ast.TypeAssertExpr, define bool, en
 func (tr *Tr) commaOkMap(s *ast.AssignStmt, ix *ast.IndexExpr, define bool, env *Env, rest cont) string {
 	return tr.expr(ix.X, env, func(e1 *Env, m Val) string {
 		m = tr.use(m, ix.X)
+		if m.typ.K == KStrSet {
+			// _, ok := m[k] on a set of strings: ok = strset_mem m k; the value is struct{}{}
+			return tr.expr(ix.Index, e1, func(e2 *Env, kv Val) string {
+				kv = tr.coerce(tr.use(kv, ix.Index), tString, ix.Index)
+				tr.needGoMap = true
+				vals := []Val{{term: "tt", typ: &T{K: KStruct}}, {term: fmt.Sprintf("strset_mem %s %s", paren(m.term), paren(kv.term)), typ: tBool}}
+				return tr.bindAll(s, s.Lhs, vals, define, nil, e2, rest)
+			})
+		}
 		if m.typ.K != KMap {
 			tr.fail(s, "comma-ok index of a value of type %v", m.typ)
 		}
@@ -1862,5 +1940,126 @@ func (tr *Tr) forStmt(s *ast.ForStmt, env *Env, rest cont) string {
 		return fmt.Sprintf("match down_loop (R := %s) (fun %s %s =>\n%s) %s %s with\n| Continue %s | Break %s =>\n%s\n| Done %s => %s\nend",
 			paren(tr.fn.fullRet), iName, bind, ind(ind(bodyText)), paren(start.term), initTuple,
 			bindAfter, bindAfter, ind(ind(restText)), r, tr.leave(outerLoop, r))
+	})
+}
+
+// ---------- maps with writes (stage G) ----------
+
+// mapStore: m[k] = v.
+//   - m a LOCAL map[string]struct{} made by make in this function, v = struct{}{}:
+//     m becomes strset_add m k (the local is the only name of the map: copies are refused);
+//   - m a PARAMETER of type map[Variable]*Term, v = &x with x a Term variable that nothing
+//     else assigns or takes the address of: m becomes map_set m k x (replace the value of k
+//     where it stands, else append); maps are reference types, so the function returns the
+//     new map beside its result (pre-pass mutatesOf), like a written-through pointer.
+func (tr *Tr) mapStore(s *ast.AssignStmt, ix *ast.IndexExpr, b *Binding, env *Env, rest cont) string {
+	isParam := false
+	for _, pb := range tr.pbind {
+		if pb == b {
+			isParam = true
+		}
+	}
+	finish := func(e *Env, newTerm string) string {
+		name := tr.fresh(b.goName)
+		nv := e.val[b]
+		nv.term, nv.cst = name, nil
+		return fmt.Sprintf("let %s := %s in\n%s", name, newTerm, rest(e.set(b, nv)))
+	}
+	switch b.typ.K {
+	case KStrSet:
+		if isParam || !b.madeHere {
+			tr.fail(s, "write to the map %s, which is not a local made by make in this function", b.goName)
+		}
+		lit, ok := unparen(s.Rhs[0]).(*ast.CompositeLit)
+		st, ok2 := func() (*ast.StructType, bool) {
+			if !ok {
+				return nil, false
+			}
+			st, ok := lit.Type.(*ast.StructType)
+			return st, ok
+		}()
+		if !ok || !ok2 || structFieldCount(st) != 0 || len(lit.Elts) != 0 {
+			tr.fail(s.Rhs[0], "value stored in a map[string]struct{} that is not struct{}{}")
+		}
+		return tr.expr(ix.Index, env, func(e *Env, kv Val) string {
+			kv = tr.coerce(tr.use(kv, ix.Index), tString, ix.Index)
+			m := tr.use(e.val[b], ix.X)
+			tr.needGoMap = true
+			return finish(e, fmt.Sprintf("strset_add %s %s", paren(m.term), paren(kv.term)))
+		})
+	case KMap:
+		if !isParam || !tr.isMutated(b) {
+			tr.fail(s, "write to the map %s, which is not a map parameter found by the pre-pass", b.goName)
+		}
+		u, ok := unparen(s.Rhs[0]).(*ast.UnaryExpr)
+		if !ok || u.Op != token.AND {
+			tr.fail(s.Rhs[0], "value stored in a map[Variable]*Term that is not &x")
+		}
+		xid, ok := unparen(u.X).(*ast.Ident)
+		if !ok {
+			tr.fail(s.Rhs[0], "value stored in a map[Variable]*Term that is not &x for a variable x")
+		}
+		xb := env.scope[xid.Name]
+		if xb == nil || xb.typ.K != KIface || xb.typ.Name != "Term" {
+			tr.fail(s.Rhs[0], "&%s stored in a map[Variable]*Term: %s is not a Term variable", xid.Name, xid.Name)
+		}
+		tr.checkStableVar(xid.Name, u)
+		return tr.expr(ix.Index, env, func(e *Env, kv Val) string {
+			kv = tr.coerce(tr.use(kv, ix.Index), b.typ.Key, ix.Index)
+			m := tr.use(e.val[b], ix.X)
+			x := tr.use(e.val[xb], xid)
+			tr.needGoMap, tr.needDEval = true, true
+			return finish(e, fmt.Sprintf("map_set %s %s %s", paren(m.term), paren(kv.term), paren(x.term)))
+		})
+	}
+	tr.fail(s, "write to an element of a value of type %v", b.typ)
+	return ""
+}
+
+// checkStableVar: the map keeps the ADDRESS of the variable, so the stored value is the
+// variable's value only if the function never assigns the variable and takes its address
+// nowhere else (allowed: addr, and every other &x that is itself the whole right-hand side of a
+// store m[k] = &x into a map -- all these pointers are equal and x never changes).  Names are
+// compared, which is conservative (a shadowing variable of the same name is refused too).
+func (tr *Tr) checkStableVar(name string, addr *ast.UnaryExpr) {
+	stored := map[*ast.UnaryExpr]bool{addr: true}
+	ast.Inspect(tr.fn.decl.Body, func(n ast.Node) bool {
+		if as, ok := n.(*ast.AssignStmt); ok && as.Tok == token.ASSIGN && len(as.Lhs) == 1 && len(as.Rhs) == 1 {
+			if ix, ok := unparen(as.Lhs[0]).(*ast.IndexExpr); ok {
+				if id, ok := unparen(ix.X).(*ast.Ident); ok {
+					if u, ok := unparen(as.Rhs[0]).(*ast.UnaryExpr); ok && u.Op == token.AND {
+						for i, pn := range tr.paramNames(tr.fn.decl) {
+							if pn == id.Name && tr.isMapParam(tr.fn.decl, i) {
+								stored[u] = true
+							}
+						}
+					}
+				}
+			}
+		}
+		return true
+	})
+	ast.Inspect(tr.fn.decl.Body, func(n ast.Node) bool {
+		switch n := n.(type) {
+		case *ast.AssignStmt:
+			for _, l := range n.Lhs {
+				if id, ok := unparen(l).(*ast.Ident); ok && id.Name == name {
+					tr.fail(n, "assignment to %s, whose address is stored in a map", name)
+				}
+			}
+		case *ast.IncDecStmt:
+			if id, ok := unparen(n.X).(*ast.Ident); ok && id.Name == name {
+				tr.fail(n, "assignment to %s, whose address is stored in a map", name)
+			}
+		case *ast.UnaryExpr:
+			if n.Op == token.AND && !stored[n] {
+				if id, ok := unparen(n.X).(*ast.Ident); ok && id.Name == name {
+					tr.fail(n, "second address of %s, whose address is stored in a map", name)
+				}
+			}
+		case *ast.FuncLit:
+			tr.fail(n, "function literal in a function that stores an address in a map")
+		}
+		return true
 	})
 }
